@@ -13,6 +13,7 @@ import RichchkModel.Generated.Consts
 import RichchkModel.Generated.Imports
 import RichchkModel.Model.FileOps
 import RichchkModel.Model.RichEdit
+import RichchkModel.GenCfg
 import RichchkModel.Model.RichEnc
 open Richchk
 
@@ -186,33 +187,6 @@ def opImport1 (idxStr : String) : String :=
         let f := Generated.factoryModules.getD r 0
         (if st.loaded.testBit f then "L" else "-") ++ natList (sortNats (registryKeys st r)))
   | none => "bad-op"
-
-def trigFieldNames : List String × List String :=
-  match Generated.decTable.find? nTRIG with
-  | some (.trig cf af _ _ _ _ _ _ _) => (cf.map (·.name), af.map (·.name))
-  | _ => ([], [])
-
-def richCfg : RichCfg := {
-  decTable := Generated.decTable
-  actionRows := Generated.actionTable
-  condRows := Generated.conditionTable
-  actionFields := trigFieldNames.2
-  condFields := trigFieldNames.1
-  enums := Generated.enums
-  flagCodecs := Generated.flagCodecs
-  unitWeapons := Generated.unitWeapons
-  knownAi := Generated.knownAiScripts.map (·.2)
-  mrgnCfg := Generated.mrgnCfg
-  uprpCfg := Generated.uprpCfg
-  swnmCfg := Generated.swnmCfg
-  mrgnSlots := Generated.mrgnEncodeSlots
-  cuwpSlots := Generated.maxCuwpSlots
-  wavSlots := Generated.maxWavFiles
-  switchSlots := Generated.maxSwitches
-  nConds := Generated.condsPerTrigger
-  nActs := Generated.actionsPerTrigger
-  nUnits := 228
-}
 
 def opCycle (hex : String) : String :=
   match bytesOfHex hex with
